@@ -116,3 +116,13 @@ Definition c01_scope2 (ord : hord) (sw : switches) (dt : detection) : bool :=
 (* the scope the runner evaluates *)
 Definition c01_scope_nested (ord : hord) (sw : switches) (dt : detection) : bool :=
   c01_scope2 ord sw dt && (negb (sw_shake sw) || run_safe ord sw dt).
+
+
+(* ---- all sixteen switch sets with nested blocks (Properties/C01_matrix_nested.v) ---- *)
+Definition matrix_input_ok2 (o : oracles) (ord : hord) (sw : switches) (dt : detection) : bool :=
+  negb (known_d17 o ord sw dt) && negb (known_d21 o ord sw dt) && negb (known_d16 ord sw dt) &&
+  forallb cmp_reads (all_trees (pre_matrix o ord sw dt)) &&
+  forallb no_match (all_trees (pre_matrix o ord sw dt)).
+Definition c01_scope_nested_all (o : oracles) (ord : hord) (sw : switches) (dt : detection) : bool :=
+  c01_scope_nested ord (sw_without_matrix sw) dt &&
+  (negb (sw_matrix sw) || (no_quant_ident (d_expr dt) && matrix_input_ok2 o ord sw dt)).
